@@ -28,9 +28,7 @@ def serializeCompact7797 (P : Prims) (E : Env) (K : KeyEnv) (C : JwsCtx) (regOpt
       reg.checkHeader prot
       let alg ← reg.getAlg (← pyGetItemStr prot "alg")
       let (k, kid?) ← guessKey P E K key prot true
-      let prot' ← match kid? with
-        | some kid => pySetItem prot "kid" kid
-        | none => pure prot
+      let prot' ← applyKid prot kid?
       k.checkUse "sig"
       alg.checkKeyType k
       let hseg ← jsonB64Encode P prot'
